@@ -241,6 +241,15 @@ func c04NewEng(cfg verifh.Cfg) *c04Eng {
 		e.intended = append(e.intended, intended)
 		e.groups = append(e.groups, toks)
 		h := func(w http.ResponseWriter, r *http.Request) { e.cur(w, r) }
+		if i%3 == 2 {
+			// the delegating entry point: ONE route through Server.AddRoute(r, opts...) (the one c04Eng.request asks for)
+			if i%2 == 0 {
+				svr.AddRoute(Route{Method: http.MethodGet, Path: fmt.Sprintf("/g%d", i), Handler: h}, opts...)
+			} else {
+				svr.AddRoute(Route{Method: http.MethodPost, Path: fmt.Sprintf("/g%d/:id", i), Handler: h}, opts...)
+			}
+			continue
+		}
 		svr.AddRoutes([]Route{
 			{Method: http.MethodGet, Path: fmt.Sprintf("/g%d", i), Handler: h},
 			{Method: http.MethodPost, Path: fmt.Sprintf("/g%d/:id", i), Handler: h},
